@@ -94,9 +94,31 @@ static void rmw_end(const void *addr, size_t sz, int idx, unsigned long saved){ 
 static __thread int rmw_idx; static __thread unsigned long rmw_saved;
 
 static void park(void){ sem_post(&ctl); sem_wait(&T[me].go); }
+/* Plain (un-hooked) stores of a translation unit compiled with -fsanitize=thread and linked with plain_hooks.c instead of the sanitizer runtime: inside a range
+   registered with vs_plain_track() such a store is a scheduling point and goes through the store buffer like a hooked store (event "store ... mo=9").  The
+   callback runs just before the store instruction, so the value is picked up at the thread's next callback, hook or note (no other thread runs in between). */
+static struct { const char *base; size_t sz; } ptrk[16]; static int nptrk;
+void vs_plain_track(const void *p, size_t sz){ ptrk[nptrk].base=p; ptrk[nptrk].sz=sz; nptrk++; }
+static __thread struct { void *addr; size_t sz; unsigned long old; int active; } pp;
+static void plain_settle(void){
+	if(!pp.active) return; pp.active=0;
+	unsigned long v=0; memcpy(&v,pp.addr,pp.sz);
+	char l[64],vs[64]; vs_ploc(l,pp.addr); pval(vs,v,pp.sz); printf("%d store %s v=%s mo=9\n", me, l, vs);
+	if(vs_tso){
+		if(T[me].nbuf>=MAXBUF){ printf("BUG store buffer overflow\n"); fflush(stdout); _exit(6); }
+		struct sbent *e=&T[me].buf[T[me].nbuf++]; e->addr=pp.addr; e->sz=pp.sz; e->v=v; e->mo=9;
+		int i=cm_find(pp.addr); if(i<0){ for(i=0;i<ncm;i++) if(CM[i].npend==0) break; if(i==ncm) ncm++; CM[i].addr=pp.addr; CM[i].sz=pp.sz; CM[i].v=pp.old; CM[i].npend=0; }
+		CM[i].npend++; } }
+static void yield_point(int needs_empty);
+void vh_plain_write(void *addr, size_t sz){
+	if(me<0) return; plain_settle(); if(noyield||!nptrk) return;
+	int hit=0; for(int i=0;i<nptrk;i++) if((const char*)addr>=ptrk[i].base && (const char*)addr<ptrk[i].base+ptrk[i].sz) hit=1; if(!hit) return;
+	if(sz>8){ printf("BUG plain store of %lu bytes into a tracked range\n",(unsigned long)sz); return; }
+	yield_point(0); chk_dead(addr);
+	pp.addr=addr; pp.sz=sz; pp.old=0; memcpy(&pp.old,addr,sz); pp.active=1; }
 /* scheduling point; needs_empty: the action about to be performed requires an empty own buffer */
 static void yield_point(int needs_empty){
-	if(me<0 || noyield) return;
+	if(me<0) return; plain_settle(); if(noyield) return;
 	T[me].needs_empty = needs_empty && vs_strict;
 	park();
 	while(T[me].sig_pending){
@@ -111,13 +133,14 @@ static void yield_point(int needs_empty){
 	if(needs_empty) drain(me);   /* no-op in strict mode */
 }
 /* quiet section: hooks neither yield nor log (used for per-thread set-up that must not be scheduled) */
-void vs_quiet_begin(void){ if(me>=0) noyield++; }
+void vs_quiet_begin(void){ if(me>=0){ plain_settle(); noyield++; } }
 void vs_quiet_end(void){ if(me>=0) noyield--; }
 void vs_atomic_begin(void){ if(me>=0){ yield_point(1); noyield++; } }
 void vs_atomic_end(void){ if(me>=0) noyield--; }
 
 void vh_pre(enum vk k, const void *addr, size_t sz, unsigned long a, unsigned long b, int mo){
 	if(me<0) return;
+	plain_settle();
 	if(noyield){ if(addr) rmw_saved=rmw_begin(addr,sz,&rmw_idx); else rmw_idx=-1; return; }
 	int ne = !(k==VK_RELAX||k==VK_SLEEP||k==VK_CALL||k==VK_RET);
 	yield_point(ne);
@@ -167,12 +190,19 @@ int vh_mutex_trylock(pthread_mutex_t *m){
 	char l[64]; vs_ploc(l,m);
 	if(MX[i].owner!=-1){ printf("%d trylock %s -> busy\n", me, l); return EBUSY; }
 	MX[i].owner=me; printf("%d trylock %s -> ok\n", me, l); return 0; }
+/* a scenario may declare one mutex whose critical sections are outside the property under test as far as signals go: a signal chosen while the thread
+   holds it stays pending until the unlock (as if the code had blocked signals there) */
+static pthread_mutex_t *sigdefer_mx;
+void vs_defer_signals_while_holding(pthread_mutex_t *m){ sigdefer_mx=m; }
+static int holds_sigdefer(int t){ return sigdefer_mx && MX[mx_idx(sigdefer_mx)].owner==t; }
 int vh_mutex_unlock(pthread_mutex_t *m){
 	if(me<0) return 0;
 	int i=mx_idx(m);
 	if(noyield){ MX[i].owner=-1; return 0; }
 	yield_point(1); MX[i].owner=-1;
-	char l[64]; vs_ploc(l,m); printf("%d unlock %s\n", me, l); return 0; }
+	char l[64]; vs_ploc(l,m); printf("%d unlock %s\n", me, l);
+	if(m==sigdefer_mx && !T[me].masked && T[me].sig_deferred && sig_handler){ T[me].sig_deferred=0; printf("%d signal (was pending)\n", me); sig_handler(me); printf("%d sigreturn\n", me); }
+	return 0; }
 /* condition variables: wait = release the mutex and block until a broadcast (or a spurious wake-up choice), then re-acquire */
 int vh_cond_wait(pthread_cond_t *c, pthread_mutex_t *m){
 	if(me<0) return 0;
@@ -216,9 +246,9 @@ int vh_pthread_sigmask(int how, const sigset_t *set, sigset_t *old){
 	return 0; }
 int vh_poll(void *fds, unsigned long n, int ms){ (void)fds; (void)n; (void)ms; vh_pre(VK_SLEEP,0,0,0,0,0); return 0; }
 int vh_usleep(unsigned us){ (void)us; vh_pre(VK_SLEEP,0,0,0,0,0); return 0; }
-void vs_call(const char *op, unsigned long a){ if(me<0||noyield) return; yield_point(0); char v[64]; pval(v,a,8); printf("%d call %s %s\n", me, op, v); }
-void vs_ret(const char *op, unsigned long r){ if(me<0||noyield) return; yield_point(0); T[me].rets++; char v[64]; pval(v,r,8); printf("%d ret %s %s\n", me, op, v); }
-void vs_note(const char *fmt, ...){ va_list ap; va_start(ap,fmt); printf("%d note ", me); vprintf(fmt,ap); printf("\n"); va_end(ap); }
+void vs_call(const char *op, unsigned long a){ if(me>=0) plain_settle(); if(me<0||noyield) return; yield_point(0); char v[64]; pval(v,a,8); printf("%d call %s %s\n", me, op, v); }
+void vs_ret(const char *op, unsigned long r){ if(me>=0) plain_settle(); if(me<0||noyield) return; yield_point(0); T[me].rets++; char v[64]; pval(v,r,8); printf("%d ret %s %s\n", me, op, v); }
+void vs_note(const char *fmt, ...){ if(me>=0) plain_settle(); va_list ap; va_start(ap,fmt); printf("%d note ", me); vprintf(fmt,ap); printf("\n"); va_end(ap); }
 
 static int enabled(int t){
 	if(!T[t].alive) return 0;
@@ -231,7 +261,7 @@ static int enabled(int t){
 static void *tmain(void *arg){ int t=(int)(long)arg; me=t;
 	if(!T[t].fn){ sem_post(&born); sem_wait(&T[t].go); T[t].steps++; printf("%d start\n",t); }
 	if(T[t].fn) T[t].fn(t); else T[t].pfn(T[t].parg);
-	T[t].alive=0; T[t].needs_empty=0; printf("%d exit\n",t); sem_post(&ctl); return 0; }
+	plain_settle(); T[t].alive=0; T[t].needs_empty=0; printf("%d exit\n",t); sem_post(&ctl); return 0; }
 static int spawn_common(void){ static int inited; if(!inited){ sem_init(&born,0,0); sem_init(&ctl,0,0); inited=1; }
 	if(NT>=MAXT){ printf("BUG too many threads\n"); fflush(stdout); _exit(6); }
 	int t=NT++; T[t].alive=1; T[t].want_join=-1; sem_init(&T[t].go,0,0); return t; }
@@ -257,7 +287,7 @@ void vs_run(const char *sched){
 		if(rt>=0 ? c=='a' : (c>='a'&&c<'a'+NT)){ int t = rt>=0 ? rt : c-'a'; if(T[t].nbuf){ char l[64], v[64]; vs_ploc(l,T[t].buf[0].addr); pval(v,T[t].buf[0].v,T[t].buf[0].sz); commit_one(t); printf("%d flush %s v=%s\n", t, l, v);} continue; }
 		if(c>='A'&&c<'A'+NT){ int t=c-'A'; if((T[t].want_futex||T[t].want_cond)&&!T[t].woken){ T[t].woken=1; T[t].wake_reason=1; printf("%d spurious\n",t);} continue; }
 		if(c=='!'){ if(*p){ int t=*p++-'0'; if(t>=0&&t<NT&&T[t].want_futex&&!T[t].woken){ T[t].woken=1; T[t].wake_reason=2; } } continue; }
-		if(c=='^'){ if(*p){ int t=*p++-'0'; if(t>=0&&t<NT&&T[t].alive&&sig_handler&&!T[t].want_futex&&T[t].want_join<0){ if(T[t].masked){ T[t].sig_deferred=1; } else { T[t].sig_pending=1; sem_post(&T[t].go); sem_wait(&ctl);} } } continue; }
+		if(c=='^'){ if(*p){ int t=*p++-'0'; if(t>=0&&t<NT&&T[t].alive&&sig_handler&&!T[t].want_futex&&T[t].want_join<0){ if(T[t].masked || holds_sigdefer(t)){ T[t].sig_deferred=1; } else { T[t].sig_pending=1; sem_post(&T[t].go); sem_wait(&ctl);} } } continue; }
 		if(c=='}'){ /* solo run with report (C17): thread t alone until its current operation returns; at most 400 own steps */
 			if(*p){ int t=*p++-'0'; if(t>=0&&t<NT&&T[t].alive){ long r0=T[t].rets, s0=T[t].steps; int guard=0; const char *why="ok";
 				while(T[t].alive && T[t].rets==r0){
